@@ -32,17 +32,28 @@ RhsOf(s, e) == CASE e.kind = "CondenseLhs" -> Acc(s, e.i)
 \* fold MStep; besides acceptance track
 \*   drift    - first event whose observed operand data differ from the mirrored heap
 \*   polluted - first event whose observed RHS data are not the pristine source document
-RECURSIVE Run(_, _, _, _, _)
-Run(s, tr, i, drift, polluted) ==
-  IF i > Len(tr) THEN [ok |-> TRUE, at |-> 0, s |-> s, drift |-> drift, polluted |-> polluted]
-  ELSE LET e == NormEv(tr[i])  n == MStep(s, e) IN
-       IF n.pc = "REJECT" THEN [ok |-> FALSE, at |-> i, s |-> s, drift |-> drift, polluted |-> polluted]
-       ELSE IF ~IsMerge(e) THEN Run(n, tr, i + 1, drift, polluted)
+\* The fold is split in halves and each half is forced before the next starts (recursion depth
+\* log2 of the trace length: TLC evaluates ASSUMEs on the JVM's main thread, whose 1 MB stack a
+\* linear or lazily chained fold over 100+ events exhausts).
+StepAcc(a, tr, i) ==
+  IF ~a.ok THEN a
+  ELSE LET s == a.s  e == NormEv(tr[i])  n == MStep(s, e) IN
+       IF n.pc = "REJECT" THEN [a EXCEPT !.ok = FALSE, !.at = i]
+       ELSE IF ~IsMerge(e) THEN [a EXCEPT !.s = n]
        ELSE LET agree == /\ ObsDoc(tr[i].lm) = HContent(s.heap, AccOf(s, e))
                          /\ ObsDoc(tr[i].rm) = HContent(s.heap, RhsOf(s, e))
                 pristine == ObsDoc(tr[i].rm) = Src(RhsOf(s, e), s.kinds[RhsOf(s, e)])
-            IN Run(n, tr, i + 1, IF drift = 0 /\ ~agree THEN i ELSE drift,
-                                 IF polluted = 0 /\ ~pristine THEN i ELSE polluted)
+            IN [a EXCEPT !.s = n, !.drift = IF @ = 0 /\ ~agree THEN i ELSE @,
+                                  !.polluted = IF @ = 0 /\ ~pristine THEN i ELSE @]
+RECURSIVE Fold(_, _, _, _)
+Fold(a, tr, lo, hi) ==
+  IF lo > hi THEN a
+  ELSE IF lo = hi THEN StepAcc(a, tr, lo)
+  ELSE LET mid == (lo + hi) \div 2
+           left == Fold(a, tr, lo, mid)
+       IN IF left.ok \in BOOLEAN            \* forces the left half now (TLC passes arguments lazily)
+          THEN Fold(left, tr, mid + 1, hi) ELSE left
+Run(s0, tr) == Fold([ok |-> TRUE, at |-> 0, s |-> s0, drift |-> 0, polluted |-> 0], tr, 1, Len(tr))
 
 EvText(e) ==
   CASE e.kind = "Load" -> "Load(" \o ToString(e.f) \o ")"
@@ -61,8 +72,8 @@ HeapDocs(s) == [p \in 1..Len(s.lhs) |-> HContent(s.heap, Acc(s, p))]
 
 Verdict(r) ==
   LET pol   == Pol(r.hashes, r.arrays)
-      runP  == Run(MInit(r.mode, pol, r.files, r.kinds, FALSE), r.events, 1, 0, 0)   \* design as pinned
-      runC  == Run(MInit(r.mode, pol, r.files, r.kinds, TRUE), r.events, 1, 0, 0)    \* repaired design
+      runP  == Run(MInit(r.mode, pol, r.files, r.kinds, FALSE), r.events)   \* design as pinned
+      runC  == Run(MInit(r.mode, pol, r.files, r.kinds, TRUE), r.events)    \* repaired design
       exp   == Expected(r.mode, r.files)                \* declarative - does not depend on the trace
       expc  == [p \in 1..Len(exp) |-> Content(exp[p], r.kinds, pol)]
       trOk  == runC.ok /\ runC.s.pc = "DONE" /\ runC.s.out = exp
